@@ -76,3 +76,102 @@ def half_to_f32bits(h):
 
 
 def is_nan32(b): return (b >> 23) & 0xff == 0xff and b & 0x7fffff != 0
+
+
+# ---------------------------------------------------------------------------------------------------
+# grammar-directed enumeration of well-formed items (as encodings) and their single-edit neighbours
+# an "enc" is (bytes, [offsets of item heads within bytes])
+
+def _cat(parts):
+    b = b''; offs = []
+    for pb, po in parts:
+        offs += [len(b) + o for o in po]; b += pb
+    return b, offs
+
+
+def leaf_items():
+    """one-head items: every major type x every argument width (lengths small so that payloads are present)"""
+    out = []
+    for mt in (0, 1):
+        for ai, v in ((0, 0), (23, 23), (24, 24), (24, 255), (25, 256), (25, 65535), (26, 65536), (26, 2 ** 32 - 1), (27, 2 ** 32), (27, 2 ** 64 - 1), (24, 0), (27, 1)):
+            out.append((head(mt, v, ai), [0]))
+    for mt in (2, 3):
+        for ai, n in ((0, 0), (1, 1), (3, 3), (24, 0), (24, 2), (25, 1), (26, 2), (27, 1), (23, 23), (24, 24)):
+            payload = (b'abcdefghijklmnopqrstuvwxyz' if mt == 3 else bytes(range(1, 27)))[:n]
+            out.append((head(mt, n, ai) + payload, [0]))
+        out.append((head(3, 2) + b'\xc3\xa9', [0])); out.append((head(3, 2) + b'\xc3\x28', [0]))
+    for ai, n in ((0, 0), (24, 0), (25, 0), (26, 0), (27, 0)):
+        out.append((head(4, n, ai), [0])); out.append((head(5, n, ai), [0]))
+    for b in (0xf4, 0xf5, 0xf6, 0xf7):
+        out.append((bytes([b]), [0]))
+    out += [(b'\xf9\x3c\x00', [0]), (b'\xf9\x7e\x00', [0]), (b'\xf9\xfc\x00', [0]), (b'\xf9\x00\x01', [0]),
+            (b'\xfa\x3f\x80\x00\x00', [0]), (b'\xfa\x7f\xc0\x00\x01', [0]),
+            (b'\xfb\x3f\xf0\x00\x00\x00\x00\x00\x00', [0]), (b'\xfb\xff\xf8\x00\x00\x00\x00\x00\x01', [0])]
+    return out
+
+
+def wrap_all(children_pool, rng, tier):
+    """containers of every kind around children drawn from the pool"""
+    out = []
+    few = children_pool
+    def pick(): return rng.choice(few)
+    for n in (1, 2, 3):
+        for ai in ((n, 24, 25) if n == 1 else (n, 24)) + ((26, 27) if n == 2 else ()):
+            kids = [pick() for _ in range(n)]
+            out.append(_cat([(head(4, n, ai), [0])] + kids))
+            kv = [pick() for _ in range(2 * n)]
+            out.append(_cat([(head(5, n, ai), [0])] + kv))
+    for n in (0, 1, 2, 3):
+        kids = [pick() for _ in range(n)]
+        out.append(_cat([(b'\x9f', [0])] + kids + [(b'\xff', [0])]))
+        kv = [pick() for _ in range(2 * n)]
+        out.append(_cat([(b'\xbf', [0])] + kv + [(b'\xff', [0])]))
+    for t, ai in ((0, 0), (1, 1), (24, 24), (255, 24), (256, 25), (65536, 26), (2 ** 32, 27), (2 ** 64 - 1, 27), (2, 27)):
+        out.append(_cat([(head(6, t, ai), [0]), pick()]))
+    for mt, start in ((2, 0x5f), (3, 0x7f)):
+        for n in (0, 1, 2, 3, 5):
+            chunks = []
+            for _ in range(n):
+                ln = rng.below(4)
+                chunks.append((head(mt, ln, rng.choice([ln, 24, 25])) + bytes(65 + rng.below(26) for _ in range(ln)), [0]))
+            out.append(_cat([(bytes([start]), [0])] + chunks + [(b'\xff', [0])]))
+    return out
+
+
+def wellformed(tier, rng):
+    """encodings of well-formed items by shape, nesting up to 3 (4 in thorough)"""
+    L0 = leaf_items()
+    L1 = wrap_all(L0, rng, tier)
+    pool = L0 + L1
+    L2 = wrap_all(pool, rng, tier)
+    pool2 = pool + L2
+    L3 = wrap_all(pool2, rng, tier)
+    out = L0 + L1 + L2 + L3
+    if tier == 'thorough':
+        out += wrap_all(pool2 + L3, rng, tier) + wrap_all(L1, rng, tier) + wrap_all(L2, rng, tier)
+    return out
+
+
+RESERVED = [0x1c, 0x1f, 0x3c, 0x3f, 0x5c, 0x5e, 0x7c, 0x7e, 0x9c, 0xbc, 0xdc, 0xdf, 0xe0, 0xf3, 0xf8, 0xfc, 0xfe]
+OTHER = [0x00, 0x17, 0x18, 0x20, 0x40, 0x41, 0x5f, 0x60, 0x7f, 0x80, 0x81, 0x9f, 0xa0, 0xa1, 0xbf, 0xc0, 0xf4, 0xf6, 0xf9, 0xff]
+
+
+def neighbours(enc, rng, tier):
+    """single-edit corruptions of one encoding: truncation at each offset, head overwrite, break insert/delete,
+    count/length inflate/deflate, chunk-type swap"""
+    b, offs = enc
+    out = []
+    for n in range(len(b)): out.append(b[:n])
+    for o in offs:
+        for v in (RESERVED if tier == 'thorough' else [rng.choice(RESERVED), rng.choice(RESERVED)]) + [rng.choice(OTHER), rng.choice(OTHER)]:
+            out.append(b[:o] + bytes([v]) + b[o + 1:])
+        out.append(b[:o] + b'\xff' + b[o:])              # insert a break before this head
+        out.append(b[:o] + b[o + 1:])                    # delete the initial byte
+        ib = b[o]; mt, ai = ib >> 5, ib & 31
+        if ai < 23: out.append(b[:o] + bytes([ib + 1]) + b[o + 1:])      # inflate an immediate count/length/value
+        if 0 < ai < 24: out.append(b[:o] + bytes([ib - 1]) + b[o + 1:])  # deflate
+        if mt in (2, 3): out.append(b[:o] + bytes([ib ^ 0x20]) + b[o + 1:])  # swap string type (chunk type mismatch)
+    for i, c in enumerate(b):
+        if c == 0xff: out.append(b[:i] + b[i + 1:])      # delete a break
+    out.append(b + b'\xff')
+    return out
